@@ -141,6 +141,9 @@ def run(ctx):
     # hashes used for matched blocks: check_filters_data returns message block_hashes (documented: unverified)
     height_binding(ctx)
     anchoring(ctx)
+    # reviewed reference of the checker functions' decision structure (engine/census.py)
+    from rules import census_fns
+    census_fns.run(ctx, 'C06')
 
 
 def height_binding(ctx):
